@@ -31,10 +31,12 @@ def wpick(r, table):
 # ----------------------------------------------------------------------------------------------
 # expressions
 # ----------------------------------------------------------------------------------------------
-def atoms(spec, kinds, allow_t=True):
-    """scalar atoms over symbols of the given kinds"""
+def atoms(spec, kinds, allow_t=True, node_only=False):
+    """scalar atoms over symbols of the given kinds (node-only parameters only on request)"""
     out = []
     for s in spec.syms:
+        if bool(s.get("node_only")) != node_only:
+            continue
         tag = s["kind"] + (":" + s.get("grid", "") if s["kind"] in ("parameter", "variable") else "")
         if tag not in kinds and s["kind"] not in kinds:
             continue
@@ -79,8 +81,13 @@ def gen_time_expr(r):
 # methods / solvers
 # ----------------------------------------------------------------------------------------------
 def gen_grid(r, cfg):
-    g = wpick(r, [(5, "Uniform"), (2 if cfg.get("geometric", True) else 0, "Geometric"), (1 if cfg.get("freegrid", False) else 0, "Free")])
+    g = wpick(r, [(5, "Uniform"), (2 if cfg.get("geometric", True) else 0, "Geometric"), (1 if cfg.get("freegrid", False) else 0, "Free"),
+                  (cfg.get("w_dense_edges", 1.0), "DenseEdges")])
     d = {"cls": g}
+    if g == "DenseEdges":
+        d["multiplier"] = pick(r, [2, 5, 10])
+        d["edge_frac"] = pick(r, [0.1, 0.2, 0.3])
+        return d
     if g == "Geometric":
         d["growth"] = pick(r, [1.5, 2, 3])
         d["local"] = r.random() < 0.5
@@ -142,6 +149,31 @@ def gen_value(r, s, N):
     if r.random() < 0.2 and rows == 1:
         return rnum(r)
     return {"as": pick(r, ["np", "dm"]), "v": [[rnum(r) for _ in range(ncol)] for _ in range(rows)]}
+
+
+def node_times(sp):
+    """control-node times when t0, T are plain numbers (else None); closed-form grids only"""
+    from .oracles import norm_grid
+
+    if sp.method is None or sp.T[0] != "num" or sp.t0[0] != "num":
+        return None
+    if (sp.method.get("grid") or {}).get("cls") == "DenseEdges":
+        return None  # node times known to ~1e-6 only: not exact enough to write q(t_k) in as numbers
+    n = norm_grid(sp.method.get("grid"), sp.method["N"])
+    return [float(sp.t0[1]) + x * float(sp.T[1]) for x in n]
+
+
+def node_only_value(r, sp, s):
+    """values of a node-only parameter: samples of a seeded function of time at the nodes the columns belong to"""
+    from . import expr as E
+
+    N = sp.method["N"]
+    tc = node_times(sp)
+    ncol = N + 1 if s.get("include_last") else N
+    if tc is None:
+        return {"as": "np", "v": [[rnum(r) for _ in range(ncol)]]}
+    fn = ["+", gen_time_expr(r), ["*", ["c", rnum(r)], ["t"]]]  # (always a genuine function of time)
+    return {"as": pick(r, ["np", "dm"]), "v": [[round(E.evalnum(fn, t=tc[k]), 10) for k in range(ncol)]], "fn": fn}
 
 
 def positive_value(r):
@@ -269,6 +301,12 @@ def gen_base(r, cfg):
     if Tk == "par":
         pT = decl("parameter")
         emit({"op": "set_T", "T": ["par", pT]})
+    # a per-interval parameter that is only ever evaluated at control nodes (path constraints on the control grid,
+    # sums, next()): with values sampled from a function q(t) it is equivalent to writing q(ocp.t) in its place
+    if cfg.get("node_only_params", True) and r.random() < cfg.get("p_node_only", 0.35):
+        # (with include_last, so that it has a value at every node incl. the final one: a plain per-interval
+        #  parameter has none there and rockit falls back to the last interval's column)
+        decl("parameter", grid="control", include_last=True, node_only=True)
     # variables
     for i in range(r.randint(0, cfg.get("nv_max", 2))):
         k = wpick(r, [(2, "g"), (1, "c"), (1, "c+")])
@@ -308,11 +346,13 @@ def gen_base(r, cfg):
         emit(op)
     emit({"op": "method", "m": method})
     sv = gen_solver(r, cfg)
-    emit({"op": "solver", "name": sv[0], "opts": sv[1]})
+    emit({"op": "solver", "name": sv[0], "opts": sv[1], "reuse": r.random() < 0.5})
     # values
     for p in sp.names("parameter"):
         s = sp.sym(p)
         v = positive_value(r) if (sp.T == ["par", p]) else gen_value(r, s, N)
+        if s.get("node_only"):
+            v = node_only_value(r, sp, s)
         emit({"op": "set_value", "p": p, "v": v})
     # guesses
     for tg, s in guess_targets(sp):
@@ -329,9 +369,13 @@ def gen_constraints(r, sp, cfg, n, first=False):
     cpar = atoms(sp, ("parameter:control",), allow_t=False)
     gvar = [["s", v] for v in sp.names("variable") if sp.sym(v).get("grid", "") == ""]
     cvar = atoms(sp, ("variable:control",), allow_t=False)
-    is_dc = sp.method and sp.method["cls"] == "DirectCollocation"
+    npar = atoms(sp, ("parameter:control",), allow_t=False, node_only=True)
     for i in range(n):
         kinds = [(3, "bnd0"), (2, "bndf"), (2, "pathx")]
+        if cfg.get("offsets", True):
+            kinds.append((1.2, "rate"))
+        if npar:
+            kinds.append((3, "nodep"))
         if ctrls:
             kinds.append((3, "boxu"))
         if gvar:
@@ -361,7 +405,14 @@ def gen_constraints(r, sp, cfg, n, first=False):
             d["expr"] = ["<=", pick(r, cvar), pick(r, states) if r.random() < 0.5 else ["c", rnum(r)]]
         elif k == "pathp":
             d["expr"] = ["<=", pick(r, states), ["+", pick(r, cpar), ["c", 3.0]]]
-        if k in ("pathx", "boxu", "cvar", "pathp"):
+        elif k == "rate":  # bound on the change over one control interval
+            e = pick(r, ctrls) if (ctrls and r.random() < 0.6) else pick(r, states)
+            d["expr"] = ["box", ["c", rnum(r, -3, -0.5)], ["-", [pick(r, ["next", "next", "prev"]), e], e], ["c", rnum(r, 0.5, 3)]]
+        elif k == "nodep":  # tracking-type constraint against a reference given per node
+            q = pick(r, npar)
+            q = wpick(r, [(3, q), (2, ["next", q]), (1, ["prev", q])])
+            d["expr"] = ["<=", pick(r, states), ["+", q, ["c", 3.0]]]
+        if k in ("pathx", "boxu", "cvar", "pathp", "rate", "nodep"):
             if r.random() < 0.3:
                 d["include_first"] = False
             if r.random() < 0.3:
@@ -379,8 +430,11 @@ def gen_objectives(r, sp, cfg, n):
     sig = atoms(sp, ("state", "control", "variable:control", "parameter:control"), allow_t=True)
     sigs = atoms(sp, ("state",), allow_t=False)
     gvar = [["s", v] for v in sp.names("variable") if sp.sym(v).get("grid", "") == ""]
+    npar = atoms(sp, ("parameter:control",), allow_t=False, node_only=True)
     for i in range(n):
         kinds = [(3, "int"), (2, "tf"), (1, "sum")]
+        if npar:
+            kinds.append((2, "track"))
         if sp.nxt:  # discrete-time model: no integrals
             kinds = [(2, "tf"), (3, "sum")]
         if sp.T[0] == "free":
@@ -396,6 +450,9 @@ def gen_objectives(r, sp, cfg, n):
             e = ["at_tf", ["sq", pick(r, sigs)]]
         elif k == "sum":
             e = [pick(r, ["sum", "sum+"]) if not atoms(sp, ("control",), False) else "sum", ["sq", pick(r, sig)]]
+        elif k == "track":  # sum over the control grid of a tracking error against a per-node reference
+            q = pick(r, npar)
+            e = ["sum", ["sq", ["-", pick(r, sigs), q]]]
         elif k == "T":
             e = ["*", ["c", abs(rnum(r))], ["T"]]
         elif k == "t0":
